@@ -59,6 +59,7 @@ type tree struct {
 	kcalls *int
 	vcalls *int
 	order  int
+	poke   func(step int) error // uses the bystander trees (kvh.Box.Poke)
 }
 
 func build(c kvh.Case) *tree {
@@ -71,7 +72,7 @@ func build(c kvh.Case) *tree {
 	}
 	b := kvh.New(c)
 	t := &tree{kind: c.Kind, put: b.Put, rem: b.Remove, get: func(k int) bool { _, ok := b.Get(k); return ok },
-		clear: b.Clear, size: b.Size, kcalls: b.KeyCalls, vcalls: b.ValCalls, order: c.Order}
+		clear: b.Clear, size: b.Size, kcalls: b.KeyCalls, vcalls: b.ValCalls, order: c.Order, poke: b.Poke}
 	switch {
 	case b.RBT != nil:
 		t.shape = func() (shape.Stats, error) { return shape.RBT(b.RBT, false) }
@@ -191,6 +192,13 @@ func run(c kvh.Case) (flags, pbt.Info, error) {
 		}
 		if !work("Get", k, t.size(), func() { t.get(k) }) {
 			return false
+		}
+		// other trees of the same kind with other orders / comparators live next to this one
+		if t.poke != nil && (step < 64 || step%8 == 0) {
+			if err := t.poke(step); err != nil {
+				failure = fmt.Errorf("%s step %d: %v", c.Describe(), step, err)
+				return false
+			}
 		}
 		return checkShape(false)
 	}
